@@ -173,6 +173,36 @@ pub fn string_encoding(s: &str) -> wit_component::StringEncoding {
     }
 }
 
+/// The bytes of a `component-type` custom section (what generated bindings embed):
+/// decode them and compare the world they describe with the requested one.
+pub fn decode_check(bytes: &[u8], resolve: &Resolve, world: WorldId) -> Value {
+    // wrap the section into an otherwise empty core module and use the public decoder
+    let mut module = wasm_encoder::Module::new();
+    module.section(&wasm_encoder::CustomSection { name: "component-type".into(), data: std::borrow::Cow::Borrowed(bytes) });
+    let module = module.finish();
+    let r = vkit::catch(std::panic::AssertUnwindSafe(|| wit_component::metadata::decode(&module)));
+    let (dres, dworld) = match r {
+        Ok(Ok((_, b))) => (b.resolve, b.world),
+        Ok(Err(e)) => return json!({"ok": false, "stage": "undecodable", "error": format!("{e:#}")}),
+        Err((m, l)) => return json!({"ok": false, "stage": "undecodable", "error": format!("decoder panic: {m} at {l}")}),
+    };
+    let want = worldcmp::summarize(resolve, world);
+    let got = worldcmp::summarize(&dres, dworld);
+    let mut diff = worldcmp::compare(&want, &got, worldcmp::ImportMode::Equal);
+    // metadata carries the whole world: imports must be equal both ways
+    for k in want.imports.keys() {
+        if !got.imports.contains_key(k) {
+            diff.push(("import-missing".to_string(), format!("requested import `{k}` is absent from the embedded world")));
+        }
+    }
+    json!({
+        "ok": diff.is_empty(),
+        "stage": if diff.is_empty() { Value::Null } else { json!("world-mismatch") },
+        "error": diff.first().map(|d| format!("{}: {}", d.0, d.1)).unwrap_or_default(),
+        "diff": diff.iter().map(|(k, d)| json!([k, d])).collect::<Vec<_>>(),
+    })
+}
+
 /// Core module -> component -> decoded world, compared with the requested world.
 /// Result: {ok, stage: null|"encode"|"decode"|"world-mismatch"|"encoder-panic", error, diff:[[kind,detail]..], ...}
 pub fn encode_check(module: &[u8], resolve: &Resolve, world: WorldId, mode: worldcmp::ImportMode) -> Value {
